@@ -206,7 +206,19 @@ func (w *leaseWorld) markersTaken() int {
 	return n
 }
 
-const leaseWait = 150 // slices: what the script expects is there within a moment, or it is not coming
+// leaseWait (slices): what the script expects is there within a moment, or it is not coming; after a few misses in a
+// process (a manager that does something else than the scripts expect) the wait is cut down.
+var (
+	leaseWait   = 150
+	leaseMisses = 0
+)
+
+func missed() {
+	leaseMisses++
+	if leaseMisses >= 4 {
+		leaseWait = 10
+	}
+}
 
 // mgrHooks counts the manager's trace points of a kind (caller holds h.mu).
 func (w *leaseWorld) mgrHooks(ev string) int {
@@ -224,7 +236,7 @@ func (w *leaseWorld) mgrHooks(ev string) int {
 func (w *leaseWorld) taken(recv string, before int) {
 	save := waitTicks
 	waitTicks = leaseWait
-	_ = w.h.waitFor(func() bool {
+	err := w.h.waitFor(func() bool {
 		seen := 0
 		for _, e := range w.h.hooks {
 			if e.comp != "cluster-manager" {
@@ -238,16 +250,21 @@ func (w *leaseWorld) taken(recv string, before int) {
 		}
 		return false
 	})
+	if err != nil {
+		missed()
+	}
 	waitTicks = save
 }
 
 func (w *leaseWorld) waitExp(exp leaseExp) leaseExp {
 	save := waitTicks
 	waitTicks = leaseWait
-	_ = w.h.waitFor(func() bool {
+	if err := w.h.waitFor(func() bool {
 		o := w.observed()
 		return o.Mgr == exp.Mgr && o.Mons == exp.Mons && o.Wloops == exp.Wloops && o.Dcall == exp.Dcall && o.Tcall == exp.Tcall
-	})
+	}); err != nil {
+		missed()
+	}
 	waitTicks = save
 	w.h.mu.Lock()
 	defer w.h.mu.Unlock()
